@@ -5,7 +5,7 @@
    CRS parsing and the YAML text layer are oracles (function / table arguments), never axioms. *)
 From Coq Require Import Reals ZArith Bool List Lra Lia PrimFloat.
 From PR Require Import Base.Num Base.RNum Base.F64 Model.AreaConfig Model.AreaYaml Model.C13_run
-     Gen.GenC13 Proofs.C13_base Proofs.C13_sets Proofs.C13_contra Proofs.C13_missing Proofs.C13_round Proofs.C13_yaml Proofs.C13_gen.
+     Gen.GenC13 Proofs.C13_base Proofs.C13_sets Proofs.C13_contra Proofs.C13_missing Proofs.C13_round Proofs.C13_yaml Proofs.C13_gen Proofs.C13_snap.
 Import ListNotations.
 Open Scope R_scope.
 
@@ -61,19 +61,11 @@ Print Assumptions C13_centre_snapped_degrees.
 (* Without that hypothesis clause 1 is refuted on the current tree (known finding C13.param_sets.pole_snap):
    binary64 run of the model on a geographic CRS, grid extent (-20, 79.99995, 20, 99.99995), shape (20, 40):
    centre + radius + shape gives (-20, 80, 20, 100).  The same input is replayed on the implementation by the harness. *)
-Definition snap_crs_args : args (T:=float) :=
-  @mk_args float None None None (Some (20, 40)%float) None (Some ((0, 0x1.67fff2e48e8a7p+6)%float, None)) None
-           (Some ((20, 10)%float, None)) None.
-Definition snap_es_args : args (T:=float) :=
-  @mk_args float None None (Some ((-20, 0x1.3ffff2e48e8a7p+6, 20, 0x1.8ffff2e48e8a7p+6)%float, None)) (Some (20, 40)%float)
-           None None None None None.
-Definition run_geo (a : args (T:=float)) : outcome float :=
-  create_area_def F64 (fun _ => None) (fun _ => None) (fun _ => 1%float) true Cdeg a.
 Theorem C13_pole_snap_refuted :
   outcome_eqb (run_geo snap_crs_args) (Area (-20, 80, 20, 100)%float (20, 40)%Z) = true /\
   outcome_eqb (run_geo snap_es_args) (Area (-20, 0x1.3ffff2e48e8a7p+6, 20, 0x1.8ffff2e48e8a7p+6)%float (20, 40)%Z) = true /\
   outcome_eqb (run_geo snap_crs_args) (run_geo snap_es_args) = false.
-Proof. vm_compute. repeat split. Qed.
+Proof. exact pole_snap_refuted. Qed.
 Print Assumptions C13_pole_snap_refuted.
 
 (* ------------------------------------------------------------------------------------------------------------
